@@ -28,7 +28,7 @@ def _load_part(name):
 rtpl_part = _load_part("rtpl_part")
 OCAML = lmmm.OCAML + rtpl_part.OCAML
 HARNESS = [("lang", ["lmmm_run", "rustgen_run"], True)] + rtpl_part.HARNESS
-SCRATCH = os.path.join(CACHE, "rustgen")
+SCRATCH = os.path.join(CACHE, "rustgen", "p%d" % os.getpid())      # private to this run: concurrent runs must not remove each other's files
 FIXDIR = os.path.join(REPO, "crates/lib/mimium-test/tests/mmm")
 TEMPLATE = os.path.join(REPO, "crates/lib/mimium-lang/src/compiler/mimium_placeholder.rs.template")
 
@@ -1252,7 +1252,7 @@ def template_prims_test(ck, n_seq, extra=()):
         T = sides.get("T")
         rp = {"init_len": init, "ops": ops, "cells": cells, "template_model": T, "real_template": real,
               "machine_vm": sides.get("V"), "machine_grow": sides.get("W"),
-              "how": "echo '<init_len> ; <ops>' | .cache/rustgen/template_prims.bin   and   | .cache/ocaml/rustrt_drv/rustrt_drv"}
+              "how": "echo '<init_len> ; <ops>' | .cache/rustgen/p<pid>/template_prims.bin   and   | .cache/ocaml/rustrt_drv/rustrt_drv"}
         vm = sides.get("V")
         if real is None:
             # the real code panicked (index out of range): the transcription reads 0 / writes nothing there; only legal when the
@@ -1295,6 +1295,13 @@ def run(ck):
     rexe = os.path.join(bindir, "rustgen_run")
     shutil.rmtree(SCRATCH, ignore_errors=True)
     os.makedirs(SCRATCH, exist_ok=True)
+    # scratch directories of earlier runs (kept for their replay files) are removed after three hours
+    for d in glob.glob(os.path.join(CACHE, "rustgen", "*")):
+        try:
+            if d != SCRATCH and time.time() - os.path.getmtime(d) > 3 * 3600:
+                shutil.rmtree(d, ignore_errors=True) if os.path.isdir(d) else os.remove(d)
+        except OSError:
+            pass
     quick = ck.tier == "quick"
     prim_fails = []
     rp0 = json.load(open(ck.replay))["replay"] if ck.replay else {}
